@@ -21,8 +21,8 @@ Proof. exact slice_is_byte_slice. Qed.
 
 (* ---- tokens: every built-in tokenizer, every filter chain, every text ---- *)
 Theorem C19_token_offsets :
-  forall (alnum : cp -> bool) (lower : cp -> list cp) (fold : cp -> option (list cp)) (stem : list cp -> list cp)
-         (dict_find : list cp -> list (N * N)) (re_find : list cp -> option (N * N)),
+  forall (alnum : cp -> bool) (lower : cp -> list cp) (fold : cp -> option (list cp)) (stem : N -> list cp -> list cp)
+         (dict_find : N -> list cp -> list (N * N)) (re_find : list cp -> option (N * N)),
   (forall s a b, re_find s = Some (a, b) -> exists m, points_at s a b m) ->
   forall (T : tokenizer) (fs : list tfilter) (text : list cp) (out : list token),
   blen text <= USIZE_MAX ->
@@ -174,9 +174,10 @@ Proof. exact escape_no_markup. Qed.
 Definition w_lower (c : cp) : list cp := [c].
 Definition w_fold (c : cp) : option (list cp) := None.
 Definition w_id (t : list cp) : list cp := t.
-Definition w_dict (t : list cp) : list (N * N) := [].
+Definition w_dict (d : N) (t : list cp) : list (N * N) := [].
+Definition w_stem (l : N) (t : list cp) : list cp := t.
 Definition w_re (t : list cp) : option (N * N) := None.
-Definition w_gen := n_generate is_ascii_alnum w_lower w_fold w_id w_dict w_re w_id.
+Definition w_gen := n_generate is_ascii_alnum w_lower w_fold w_stem w_dict w_re w_id.
 (* the witness is the model's own output, so that vm_compute closes the whole statement *)
 Definition w_get (o : option snippet) : snippet := match o with Some s => s | None => mkSnip [] [] end.
 
